@@ -102,6 +102,12 @@ CHECKS["C09"] = dict(
     note="Open finding: Multisphere is order dependent for >= 3 spheres of unequal size. adda absent: the DDA outcome is DependencyMissing as documented.",
     ref="5 C09")
 
+CHECKS["C01"] = dict(
+    technique="TLA+ spec Holo.tla (staged hologram pipeline over the request catalogue; history model with a hidden solver-state register that must never be read) model-checked by TLC; sampled behaviours replayed on the real pipeline; all call sequences executed in one interpreter and compared byte-for-byte with fresh-process baselines",
+    text="TLC enumerates ~27k compatible requests (sphere, layered sphere, Mie superposition, Multisphere cluster, T-matrix spheroid and cylinder, MieLens x square / anisotropic rectangular / shifted-origin / 1xN grids, point lists, two-colour detectors x four polarisations incl. an unnormalised one x four scalings incl. 0 and negative x where each optics value comes from: keyword, detector, both, missing) with the staged outcome; a factor-covering seeded sample is replayed: hologram = |alpha E + p|^2 summed over x,y with E from the real calc_field (1e-12), intensity = |E|^2, scaling 0 gives 1 (4 ulp), finiteness, detector coordinates/dims/name, keyword-over-detector metadata with the polarisation normalised, the missing parameter named in the code's order, detector untouched. History: every call sequence of length <= 3 over 11 stale-state configurations (large/small Mie, 3- then 2-sphere clusters, large/small T-matrix, MieLens, theory='auto' on close and distant pairs, T-matrix particles differing in absorption only) runs in one interpreter and every result must be byte-identical to the same call in its own fresh interpreter.",
+    note="DDA (adda) absent. Quick: 260 requests, all sequences of length <= 2 and 90 of length 3; thorough: 4000 requests, all 1463 sequences.",
+    ref="5 C01")
+
 NOT_APPLICABLE = []
 
 
